@@ -16,8 +16,11 @@ RULE = (
     "sample_combos(n in {1,2}) with every scripted draw sequence over 2x2 "
     "choices, overrides of one argument's choices / an additional argument, "
     "extra constants, the numpy random-choice path with pinned seeds, "
-    "sow_samples+grow+reap with batchsize 1 and 2, and a new Sampler on the "
-    "same file; engines pickle and csv; state = the table; non-trivial = "
+    "sow_samples+grow+reap with batchsize 1 and 2 through long-lived Crop "
+    "objects that are sown repeatedly (reaped through the same object or one "
+    "rebuilt from disk, with and without a per-sow constant overriding the "
+    "Runner's), a second live Sampler and a new Sampler on the same file; engines pickle and csv; state = the table + the set of live Crop "
+    "objects + which Sampler wrote last; non-trivial = "
     "distinct reachable tables"
 )
 ASSUMPTIONS = [
@@ -45,11 +48,11 @@ exec(_SRC, _ns)
 def events(tier, depth_left):
     ev = []
     pts = list(itertools.product(CH["a"], CH["b"]))
-    for p in pts:
+    for p in (pts if tier != "quick" else pts[1:3]):
         ev.append(["sample", [list(p)], None])
     seqs2 = list(itertools.product(pts, pts))
     if tier == "quick":
-        seqs2 = seqs2[::3]
+        seqs2 = seqs2[1::6]
     for s in seqs2:
         ev.append(["sample", [list(x) for x in s], None])
     ev.append(["sample", [[3, 10]], "a"])       # override a's choices
@@ -57,9 +60,16 @@ def events(tier, depth_left):
     ev.append(["sample", [[2, 10], [1, 10]], "k"])  # an extra constant
     ev.append(["sample_np", 2, 7])
     ev.append(["sample_np", 1, 8])
-    for bs in (1, 2):
-        ev.append(["crop", [[2, 20], [1, 10]], bs])
-        ev.append(["crop", [[1, 10], [1, 10], [2, 10]], bs])
+    # crop runs: draws, batchsize, reaped through the long-lived Crop object
+    # (else a Crop rebuilt from disk), a constant given for this sow only
+    # that the Runner also stores
+    ev.append(["crop", [[2, 20], [1, 10]], 1, True, None])
+    ev.append(["crop", [[1, 20], [2, 10]], 1, True, None])
+    ev.append(["crop", [[1, 10], [1, 10], [2, 10]], 1, False, None])
+    ev.append(["crop", [[2, 20], [1, 10]], 2, False, None])
+    ev.append(["crop", [[1, 20], [2, 10]], 2, True, 4])
+    ev.append(["crop", [[1, 10], [1, 10], [2, 10]], 2, True, None])
+    ev.append(["crop", [[2, 10]], 1, False, 4])
     ev.append(["new_session"])
     # a second, long-lived Sampler object on the same file (another session
     # running at the same time; runs alternate, they do not overlap)
@@ -85,7 +95,7 @@ class World:
     def new_sampler(self, scripted=True):
         import xyzpy as xyz
 
-        r = xyz.Runner(self.f, var_names="out")
+        r = xyz.Runner(self.f, var_names="out", constants={"k": 0})
         # (choices listed in another order than the function's signature)
         dc = ({a: _ns["scripted"](a) for a in ("b", "a")} if scripted
               else {a: list(CH[a]) for a in ("b", "a")})
@@ -97,8 +107,8 @@ class World:
         row = {"a": a, "b": b, "out": xfn.expected("num", kw)}
         if c is not None:
             row["c"] = c
-        if k is not None:
-            row["k"] = k
+        # (the Runner stores the constant k=0; a run may override it)
+        row["k"] = 0 if k is None else k
         return row
 
     def apply(self, ev):
@@ -168,7 +178,7 @@ class World:
             if len(got) != n:
                 vio.append(("run-length", "%d rows for n=%d" % (len(got), n)))
         elif kind == "crop":
-            _, seq, bs = ev
+            _, seq, bs, live, constk = ev
             n = len(seq)
             builtins._xv_script = {"a": [s[0] for s in seq],
                                    "b": [s[1] for s in seq]}
@@ -186,9 +196,12 @@ class World:
                 crop = self.crops[bs, n]
                 if crop.is_prepared():
                     crop.missing_results()
-                crop.sow_samples(n, verbosity=0)
+                if constk is None:
+                    crop.sow_samples(n, verbosity=0)
+                else:
+                    crop.sow_samples(n, verbosity=0, constants={"k": constk})
                 crop.grow_missing(verbosity=0)
-                if len(before) % 2:
+                if live:
                     last = crop.reap()
                 else:
                     last = xyz.Crop(name="k%d_%d" % (bs, n),
@@ -199,7 +212,7 @@ class World:
                 self.last = self.s
                 return [("raised:" + type(e).__name__,
                          "sow_samples/grow/reap raised %r" % e)]
-            new_rows = [self.expect_row(s[0], s[1]) for s in seq]
+            new_rows = [self.expect_row(s[0], s[1], k=constk) for s in seq]
         elif kind == "new_session":
             self.s = self.new_sampler()
             self.last = self.s
@@ -251,7 +264,11 @@ class World:
                     what = "row %d is %r, reference model %r" % (
                         bad[0], rows[bad[0]], self.rows[bad[0]])
                 vio.append((who + "-vs-model", "%s: %s" % (who, what)))
-        key = core.jhash(want)
+        # the state is the table plus which long-lived objects exist and who
+        # wrote last (objects may hold hidden state: merging histories that
+        # differ in them would hide what they do next)
+        key = core.jhash([want, sorted(getattr(self, "crops", {})),
+                          self.last is self.s2])
         return vio, key
 
 
@@ -303,7 +320,7 @@ def run(ctx):
     states = transitions = 0
     per = {}
     depth = 3 if ctx.tier == "quick" else 4
-    cap = 250 if ctx.tier == "quick" else 3000
+    cap = 450 if ctx.tier == "quick" else 3000
     for cfg in ({"engine": "pickle"}, {"engine": "csv"}):
         r = histbfs.bfs(ctx, "expand", cfg, depth, max_states=cap,
                         label=cfg["engine"])
